@@ -218,11 +218,56 @@ func (e *Engine) generate(prop string, only func(*ssa.Function) bool) *runResult
 			}
 		}
 	}
-	// unused / dangling contract parts
-	for _, ev := range e.contracts.Events {
-		_ = ev
+	// K3 immutability lemmas: every store to the field is in a whitelisted writer
+	for _, im := range e.contracts.Immutables {
+		if prop != "" && !hasTag(im.Tags, prop) {
+			continue
+		}
+		writers := e.fieldWriters(im.Field)
+		o := &Obligation{Name: "immutable#" + im.Field + "#writers", Kind: "field-writers", Func: "all packages", Clause: "stores to " + im.Field + " occur only in: " + strings.Join(im.Writers, " "), Tags: im.Tags, Src: fmt.Sprintf("%s:%d", shortFile(im.File), im.Line), guard: "true"}
+		var bad []string
+		for _, w := range writers {
+			ok := false
+			for _, allowed := range im.Writers {
+				if globMatch(allowed, w) || globMatch(allowed, w[strings.Index(w, ".")+1:]) {
+					ok = true
+				}
+			}
+			if !ok {
+				bad = append(bad, w)
+			}
+		}
+		if len(bad) == 0 {
+			o.formula = "true"
+		} else {
+			o.formula = "false"
+			o.Clause += "; also written in " + strings.Join(bad, ", ")
+		}
+		o.Info = map[string]string{"writers_found": strings.Join(writers, " ")}
+		res.obs = append(res.obs, o)
 	}
 	return res
+}
+
+// fieldWriters lists the functions containing a store to the struct field "T.f".
+func (e *Engine) fieldWriters(field string) []string {
+	var out []string
+	for _, fn := range e.allFuncs {
+		found := false
+		for _, b := range fn.Blocks {
+			for _, ins := range b.Instrs {
+				for _, sh := range e.instrShape(ins) {
+					if sh == "store "+field {
+						found = true
+					}
+				}
+			}
+		}
+		if found {
+			out = append(out, e.shortName(fn))
+		}
+	}
+	return out
 }
 
 func runVerify(repo, verif string, args []string) int {
